@@ -1211,3 +1211,48 @@ def _bindings_at(sub: ast.AST, nz: Normalizer, n: Node) -> t.Dict[str, str]:
         b2, _c = nz.comp_bindings(comp.generators, n, b, 0)
         b = b2
     return b
+
+
+# ---------------------------------------------------------------------------- C18: the converter for Any knows the handlers in effect
+
+
+def rule_any_keeps_handlers(model: Model, rule_id: str = 'C18-R10') -> RuleResult:
+    """A value in an Any-typed position (an element of a bare ``list`` / ``tuple`` / ``set``, an untyped field, ``Tuple[Any, ...]``) is
+    written by the converter of its run-time type.  That converter must be built with the handlers of the call, so the converter that
+    stands for ``Any`` has to receive them and use them; the default ``Converter.into_data`` dispatches without any."""
+    r = RuleResult(rule_id, 'the converter built for Any is given the handlers in effect and serialises with them', floor=2)
+    anyq = 'pane.converters.AnyConverter'
+    ci = model.classes.get(anyq)
+    if ci is None:
+        raise AnalysisError(f"{anyq} not found")
+    for f in model.all_functions():
+        if not isinstance(f.node, ast.FunctionDef):
+            continue
+        for c in walk_no_nested(f.node):
+            if isinstance(c, ast.Call) and model.resolve(c.func, f.module, f) == anyq:
+                r.instances += 1
+                r.analysed.add(f.qualname)
+                passed = [unparse(a) for a in c.args] + [unparse(k.value) for k in c.keywords]
+                r.sample({'built in': f.qualname, 'arguments': passed})
+                if any(re.search(r'\bhandlers\b', p_) for p_ in passed):
+                    r.ok()
+                else:
+                    r.fail(f.qualname, f"{unparse(c)} built without the handlers in effect", f.loc(c),
+                           "values in Any-typed positions are serialised without the custom converters of the call: "
+                           "into_data([Money(150)], list, custom={Money: conv}) raises TypeError (and an int handler is skipped) "
+                           "although the same value under a dict value, or a typed List[Money], is written by the custom converter")
+    r.instances += 1
+    own = ci.methods.get('into_data')
+    r.sample({'AnyConverter.into_data': 'own' if own is not None else 'inherited default (dispatches without handlers)'})
+    if own is None:
+        r.fail(anyq, 'into_data inherited from Converter', f"{ci.module.relpath}:{ci.node.lineno}",
+               "the default writer calls the module-level into_data(val) without handlers: custom converters stop applying to every "
+               "Any-typed member on output")
+    else:
+        r.analysed.add(own.qualname)
+        uses = any(isinstance(x, ast.Attribute) and x.attr == 'handlers' for x in ast.walk(own.node))
+        if uses:
+            r.ok()
+        else:
+            r.fail(own.qualname, 'the writer never looks at its handlers', own.loc(), "custom converters are ignored for Any-typed members on output")
+    return r
